@@ -27,12 +27,12 @@ CHECKS['C08'] = dict(
 CHECKS['C07'] = dict(
     technique='TLA+ lexer spec (documented order + keyword rule as L0, unless/embedded mechanism as L1) model-checked over finite-language terminals (TLC) + trace validation of real basic and contextual token streams and basic-vs-contextual parse results',
     text='TLC proves over all small terminal sets (finite languages, priorities, ignore, every text) that the unless/embedded mechanism equals the documented first-match-in-order + keyword rule except for the named spelling deviation, and that restricting the lexer to a context containing the types of its tokens does not change them (contextual refinement); the same operators judge every token (type, extent, error offset) the real Lark.lex and the real contextual lexer (driven by the real parser state) produce on random terminal sets from a catalogue, str and bytes, >100 terminals, and compare basic/contextual parse results.',
-    note="Python re and sre_parse decide single-terminal matches and widths; scanner chunking unreachable on CPython 3.12; one known finding (keyword decided on spelling)",
+    note="Python re and sre_parse decide single-terminal matches and widths; scanner chunking unreachable on CPython 3.12; deviations of the unless/embedded mechanism are classified by TLC (DevKind) into three known findings (keyword decided on spelling; embedded string removed from the order; keyword lost in a contextual subset), each of which MC_Lexer must refute as a stronger statement",
     ref='6/C07')
 CHECKS['C06'] = dict(
     technique='TLA+ LineCounter machine model-checked against the newline-count definition of coordinates (TLC) + trace validation of real token coordinates (four lexers, str/bytes) and Tree.meta spans',
     text='TLC proves that the LineCounter machine yields exact coordinates iff every newline-matching token is fed with the newline test on (the flag obligation); the same Coord definition then judges line/column/end_line/end_column of every token the real basic and contextual lexers yield on newline-heavy terminal sets (\\W \\D [\\x00-\\x20] \\012 (?s:.) ...), of every token inside parse trees under all four lexers for str and bytes, and Tree.meta (first-to-last matched token incl. filtered ones, children ordered/disjoint/nested). MC_TreeBuilder model-checks the span and container laws of PropagatePositions over all nestings of a catalogue of rule shapes (and refutes the span law where a ?rule returns a bare token - a known finding confirmed on the real parser); the span law is then judged in TLC at the grain of every real LALR reduction, with the extent of a node computed through the recorded reductions; results obtained through interactive forks (copy/as_immutable + resume_parse/exhaust_lexer) are included.',
-    note='token extents and newline offsets are read off the text; end-coordinate convention per lexer family as stated',
+    note='token extents and newline offsets are read off the text; end-coordinate convention per lexer family as stated; explicit-ambiguity trees judged by the nesting law only (TraceSpans.tla); two known findings (token through ?rule; _ambig child skipped)',
     ref='6/C06')
 
 CHECKS['C03'] = dict(
@@ -66,13 +66,13 @@ CHECKS['C05'] = dict(
 CHECKS['C18'] = dict(
     technique='TLA+ Indenter machine model-checked against the stated nesting laws over all short streams (TLC) + trace validation of a real Indenter subclass on the exhaustive stream family and on multi-stream histories, and of PythonIndenter on generated programs cross-checked with CPython tokenize',
     text='TLC proves on all streams of <=6 tokens (newlines with indents 0..3, brackets, other) the laws of the statement (level stack strictly increasing, INDENT only after a newline with larger indentation, one DEDENT per closed level also at the end, newlines inside brackets swallowed, DedentError exactly on a dedent to a non-open column, balance at end); the real Indenter is run on the same family with tab/space spellings and on histories of 2-3 streams on one object (DedentErrors, abandoned generators) and every emitted token is compared with the machine restarted from Reset; generated programs go through Lark(python.lark, PythonIndenter).lex and CPython\'s tokenizer and TLC compares the nesting depth of every content token.',
-    note='CPython cross-check on space-only indentation with balanced brackets; stray closing bracket (assert) modelled but not judged',
+    note='CPython cross-check on space-only indentation with balanced brackets, programs may end in a comment without line break (token kind NLC); stray closing bracket (assert) modelled but not judged',
     ref='6/C18')
 
 CHECKS['C13'] = dict(
     technique='TLA+ model of interactive-parser handles over a heap (in-place list extension, deep vs shallow copy) model-checked with TLC; every exported behaviour replayed on real InteractiveParser objects and re-validated by a trace specification',
     text='TLC proves OwnHistory/NoSharing for all fork/feed/copy/as_immutable/as_mutable/accepts sequences within the bound under the code\'s copy discipline and exhibits the counterexample under a shallow one (model sensitivity); every exported behaviour is executed on real parsers of five grammars (inlined left recursion, EBNF star, ?-rule with propagate_positions, placeholders, nesting) and TraceInteractive.tla re-executes it, checking after every operation that each live fork equals a fresh parser fed the history the specification assigns to it (state stack, value stack, token positions, tree meta incl. container_*), that accepts() equals trial feeding and leaves the parser unchanged, and that feed_eof equals parse(); resume_parse is compared with parsing the text without the skipped tokens. InteractiveLex.tla models parsers that lex their own text (lexer-thread cells, the thread a handle owns vs the one its parser state refers to): TLC proves NoSkip/ResultOwn for the design in which a copy rebinds its state\'s lexer and refutes the pinned design; every exported behaviour is replayed on real parsers and TraceILex checks step by step that each real handle was fed exactly the tokens the model says.',
-    note='bounded: <=3 (4) handles, <=5 (6) operations, 3 token kinds; state compared through digests',
+    note='bounded: <=3 (4) handles, <=5 (6) operations, 3 token kinds; state compared through digests; grammars with prefixed and caseless terminal names; expected sets of UnexpectedToken against the feedable terminals; forks at value-stack depth 20..900 (one known finding: copy() recursion)',
     ref='6/C13')
 
 CHECKS['C12'] = dict(
@@ -90,13 +90,13 @@ CHECKS['C10'] = dict(
 CHECKS['C14'] = dict(
     technique='TLA+ specification of scan() composed from the lexer and LALR specifications (leftmost successful attempt, longest completion as L0; the position bookkeeping of the loop as L1, L1=L0 checked on every judged run) evaluated by TLC on the spans the real scan() yields',
     text='For random LALR grammars (keywords, priorities, nullable starts, ignored terminals that overlap kept ones) and texts, windows (TextSlice) and bytes, TLC computes from the regex-oracle match table the in-context tokenisation from every candidate start, feeds the LR(1)-propagation automaton, and derives the list of leftmost-longest matches; the real scan() under the basic and contextual lexers must yield exactly these spans, in increasing non-overlapping order, each value equal to parse(snippet) and carrying buffer coordinates.',
-    note='in-context tokenisation reading of "snippet that parses"; value/coordinate equalities computed on the real objects',
+    note='in-context tokenisation reading of "snippet that parses" judged first (hard verdict); the substring reading judged second by TLC over the set of substrings that parse on their own (known finding where the two part); value/coordinate equalities computed on the real objects',
     ref='6/C14')
 
 CHECKS['C15'] = dict(
     technique='window/representation parameters of the TLA+ lexer and LineCounter specifications (model-checked for every window start) + trace validation by TLC of real results for bytes and TextSlice variants against the real result of the extracted substring shifted, and against Coord over the buffer',
     text='For random terminal sets and tree grammars, buffers with newlines and every kind of window (complete, inner, after a newline, negative indices), each parser/lexer pair that accepts the representation parses the window as TextSlice, bytes TextSlice and bytes substring; TLC compares the flattened result (token types and values, node labels, offsets, meta) with the parse of the extracted substring as str shifted by the window start, recomputes every line/column from the newline offsets of the whole buffer, and compares error class, position and coordinates.',
-    note='ASCII input; dynamic lexers accept str and bytes only; an unexpected $END on a window without tokens carries default coordinates (exempt)',
+    note='ASCII input; dynamic lexers accept str, bytes and complete slices; patterns above 0x7f in bytes mode and the stock Indenter post-lexer included; one known finding (end of input on a window without tokens reported at 0/1/1)',
     ref='6/C15')
 
 CHECKS['C16'] = dict(
@@ -114,7 +114,7 @@ CHECKS['C11'] = dict(
 CHECKS['C17'] = dict(
     technique='TLA+ definition of what %import (renaming layers, dependencies), %override, %extend and template instantiation mean - the written-out grammar as data for the EBNF.tla semantics - evaluated by TLC against real parses of module systems written as real .lark files',
     text='Imports.tla assembles, from a module system (main + up to two modules, multi / single / renaming imports, transitive imports, same-named local rules, %override/%extend of imported rules, templates), the grammar with every definition written out under its documented name (alias, or module__name layer by layer, aliases of alternatives included); TLC computes the shaped trees of each input from that grammar with EBNF.tla and judges language and trees of the real Lark(main.lark) under Earley and LALR; terminals built from other terminals and %extend/%override of imported terminals are covered through the spelling of the tokens. Templates defined in imported modules (imported by name, renamed, or reached transitively, with parameters named like rules of the importing grammar) are part of the family; the generator is collision-free so that a GrammarError of the modular grammar under Earley is a verdict.',
-    note='module rule names without leading underscore (TLC strings are atomic); one import statement per module; terminal languages (finite) spelled out by the harness',
+    note='module rule names without leading underscore (TLC strings are atomic; aliases carry the flag under); statements naming one module are merged; terminals renamed across the underscore boundary; literal template arguments; terminal languages (finite) spelled out by the harness',
     ref='6/C17')
 
 CHECKS['C19'] = dict(
